@@ -118,7 +118,7 @@ contract(H + 'level_dir_and_tile', props=['C12'],
          types=dict(layout='str', tile='opaque', cache_dir='str', file_ext='str', dimensions='opaque'),
          returns='tuple[str,opt[str]]', inline=['location_funcs'], opaque=['dimensions_part'],
          opaque_fields=TILE_F, stable_fields=['coord'], opaque_spec=TILE_SPEC,
-         requires=TILE_REQ + ["layout == 'tc' or layout == 'mp' or layout == 'tms' or layout == 'arcgis' or layout == 'reverse_tms'",
+         requires=TILE_REQ + ["layout == 'tc' or layout == 'mp' or layout == 'tms' or layout == 'arcgis' or layout == 'reverse_tms' or layout == 'quadkey'",
                               "not cache_dir.endswith('/')", "len(cache_dir) > 0",
                               # the dimension sub-path: empty, or segments joined by '/' without a leading or trailing
                               # '/' (assumed here; the bounded contract of dimensions_part checks it)
@@ -128,7 +128,8 @@ contract(H + 'level_dir_and_tile', props=['C12'],
          # a layout either offers no level directory at all (reverse_tms: the level is the LAST component) or one that
          # contains every tile of that level
          ensures=["result[1] is None or result[0].startswith(result[1] + '/')",
-                  "implies(layout != 'reverse_tms', result[1] is not None)"],
+                  # (reverse_tms: the level is the last path component; quadkey: all tiles in one directory)
+                  "implies(layout != 'reverse_tms' and layout != 'quadkey', result[1] is not None)"],
          must_fail="result[1] is not None and result[0] == result[1]")
 
 
